@@ -38,19 +38,17 @@ Theorem C04_nbytes :
 Proof. exact nbytes_full. Qed.
 Print Assumptions C04_nbytes.
 
-(* nbytes as the code computes it (float64: `math.ceil(bitwidth/8 * size)`, model `nbytes_code` with the
-   int->float rounding `rne53`): exact for every element count below 2^53 — which `logical` requires and every
-   materialisable tensor satisfies — and NOT exact beyond (known finding nbytes-float-rounding: a declared shape
-   of 2^53+1 INT4 elements reports one byte too few; integer arithmetic would be exact for every shape). *)
-Theorem C04_nbytes_float_exact :
-  forall bw size, size < 2 ^ 53 -> nbytes_code bw size = ceil_div (size * bw) 8.
-Proof. exact nbytes_float_exact. Qed.
-Print Assumptions C04_nbytes_float_exact.
+(* TensorBase.nbytes as written — `(bitwidth * size + 7) // 8`, translated into Gen.nbytes_code — is
+   ceil(size * bitwidth / 8) for EVERY element count (no bound).  Before fix c6a08a9 the code used float64
+   arithmetic, which is refuted for 2^53+1 INT4 elements (kept for the record; the witness is a corpus case). *)
+Theorem C04_nbytes_exact : forall bw size, nbytes_code bw size = ceil_div (size * bw) 8.
+Proof. exact nbytes_exact. Qed.
+Print Assumptions C04_nbytes_exact.
 
-Theorem C04_nbytes_float_refuted :
-  exists dt bw size, bitwidth dt = Some bw /\ nbytes_code bw size <> ceil_div (size * bw) 8.
-Proof. exact nbytes_float_refuted. Qed.
-Print Assumptions C04_nbytes_float_refuted.
+Theorem C04_nbytes_float_refuted_before_fix :
+  exists dt bw size, bitwidth dt = Some bw /\ nbytes_float_before_fix bw size <> ceil_div (size * bw) 8.
+Proof. exact nbytes_float_refuted_before_fix. Qed.
+Print Assumptions C04_nbytes_float_refuted_before_fix.
 
 (* pack/unpack of _type_casting.py, any length (odd, non-multiple of 4, zero), any storage bytes. *)
 Theorem C04_pack_unpack :
@@ -125,28 +123,20 @@ Theorem C04_serialize_represents :
 Proof. exact serialize_represents. Qed.
 Print Assumptions C04_serialize_represents.
 
-(* String tensors.  Full statement wanted: every string representation returns the element byte strings
-   from numpy() and string_data().  Proved for elements that do not end in a NUL byte; for an element ending
-   in NUL the list/proto-backed numpy() (numpy 'S' dtype) drops it while an object-array-backed tensor keeps
-   it — the refutation below is replayed on the implementation as known finding string-trailing-nul. *)
-Theorem C04_strings_agree_partial :
-  forall shape ss, Forall (fun s => last s 1 <> 0) ss ->
-  forall r, In r [SList shape ss; SObjArray shape ss; SBytesArray shape ss; SProto shape ss] ->
-  s_numpy r = ss /\ s_string_data r = ss.
-Proof. exact string_reps_agree. Qed.
-Print Assumptions C04_strings_agree_partial.
-
-(* With the proposed repair (object arrays, model s_numpy_fixed) the full statement holds for ALL byte strings. *)
-Theorem C04_strings_agree_with_fix :
+(* String tensors (full statement): every list-, object-array- and proto-backed representation returns exactly
+   the element byte strings from numpy() and string_data(), for ALL byte strings; a tensor over a caller-supplied
+   fixed-width 'S' array is consistent with itself (numpy already dropped the trailing NULs in the caller's array). *)
+Theorem C04_strings_agree :
   forall shape ss,
   (forall r, In r [SList shape ss; SObjArray shape ss; SProto shape ss] ->
-     s_numpy_fixed r = ss /\ s_string_data r = ss)
-  /\ s_numpy_fixed (SBytesArray shape ss) = s_string_data (SBytesArray shape ss).
-Proof. exact strings_agree_fixed. Qed.
-Print Assumptions C04_strings_agree_with_fix.
+     s_numpy r = ss /\ s_string_data r = ss)
+  /\ s_numpy (SBytesArray shape ss) = s_string_data (SBytesArray shape ss).
+Proof. exact strings_agree. Qed.
+Print Assumptions C04_strings_agree.
 
-Theorem C04_string_trailing_nul_refuted :
-  exists shape ss, s_numpy (SList shape ss) <> s_numpy (SObjArray shape ss)
+(* Before fix 5633eae numpy() went through numpy's 'S' dtype: elements ending in NUL were not reproduced. *)
+Theorem C04_string_trailing_nul_refuted_before_fix :
+  exists shape ss, s_numpy_before_fix (SList shape ss) <> s_numpy_before_fix (SObjArray shape ss)
                    /\ s_string_data (SList shape ss) = s_string_data (SObjArray shape ss).
-Proof. exact string_trailing_nul_refuted. Qed.
-Print Assumptions C04_string_trailing_nul_refuted.
+Proof. exact string_trailing_nul_refuted_before_fix. Qed.
+Print Assumptions C04_string_trailing_nul_refuted_before_fix.
